@@ -240,6 +240,7 @@ def _oracle(res, rng):
             res.violation("bs: forward routes disagree with S0 exp((r-d)T)", dict(kind="forward-bs", sigma=sigma, r=r, d=d, T=T,
                                                                                direct=got1, cf=[got2.real, got2.imag], expected=fwd))
     _conversions_oracle(res, rng)
+    _truncated_conversions_oracle(res, rng)
     _strip_oracle(res, rng)
     _ctmc_skips(res)
 
@@ -259,10 +260,14 @@ def _ctmc_route(res, rng, kind, params, em, nu, hk, r, d, ykey):
     from rpylib.product.payoff import Forward
     from rpylib.product.product import Product
     from rpylib.product.underlying import Spot
-    for h in ((0.05, 0.02) if res.tier == "quick" else (0.05, 0.02, 0.01)):
+    # grids: the default truncation (probability 0.99999) at several h, and a hand-sized grid whose truncation lies strictly
+    # inside (-1, 1) (so that the tails [1, inf), (-inf, -1] do not meet it)
+    specs = [("auto", h) for h in ((0.05, 0.02) if res.tier == "quick" else (0.05, 0.02, 0.01))] + [("narrow", 0.02), ("narrow", 0.04)]
+    for gkind, h in specs:
         CTMC["attempts"] += 1
         try:
-            grid = CTMCUniformGrid(h=h, model=em)
+            grid = CTMCUniformGrid(h=h, model=em) if gkind == "auto" else \
+                CTMCUniformGrid.create_from_fixed_nb_of_points(h=h, nb_of_points=20)
             mcp = MarkovChainProcess(model=em, method=SamplingMethod.BINARYSEARCHTREEADAPTED1D
                                      if hasattr(SamplingMethod, "BINARYSEARCHTREEADAPTED1D") else list(SamplingMethod)[0], grid=grid)
             mcp.initialisation(Product(payoff_underlying=Spot(), payoff=Forward(strike=1.0), maturity=1.0))
@@ -279,9 +284,9 @@ def _ctmc_route(res, rng, kind, params, em, nu, hk, r, d, ykey):
         tail = complex(lk_quad(nu, hk, 1.0, outside=(l, rr))).real      # what the truncation removed from kappa(1)
         growth = float(mcp._process_drift) + mu_h + 0.5 * sig ** 2 + Jc
         bias = growth - (r - d)
-        res.count(("fwd-ctmc", kind, tuple(sorted(params.items())), r, d, h), kind="oracle forward ctmc route")
-        res.bump("ctmc_h", h)
-        rep = dict(kind="forward-ctmc", model=kind, params=params, r=r, d=d, h=h, truncations=[l, rr], process_drift=float(mcp._process_drift),
+        res.count(("fwd-ctmc", kind, tuple(sorted(params.items())), r, d, gkind, h), kind="oracle forward ctmc route")
+        res.bump("ctmc_grid", f"{gkind} h={h}" + (" (truncation inside (-1,1))" if -1 < l and rr < 1 else ""))
+        rep = dict(kind="forward-ctmc", model=kind, params=params, r=r, d=d, h=h, grid=gkind, truncations=[l, rr], process_drift=float(mcp._process_drift),
                    mu_h=mu_h, growth_under_exact_truncated_law=growth, bias=bias, removed_tail=tail, expected=r - d)
         explained = _close(bias + tail, 0.0, rel=1e-7, ab=1e-8)
         if not explained:
@@ -310,7 +315,9 @@ def matches_known(v, known):
         # declared representation) and of the recorded order of magnitude (observed 1e-5 .. 7e-2 per year; cap 0.5)
         return (r.get("kind") == "forward-ctmc" and "bias" in r and "removed_tail" in r
                 and abs(r["bias"] + r["removed_tail"]) <= 1e-7 * max(1.0, abs(r["removed_tail"])) + 1e-8
-                and CTMC_BIAS_TOL < abs(r["bias"]) < 0.5)
+                and CTMC_BIAS_TOL < abs(r["bias"]) and (abs(r["bias"]) < 0.5 or r.get("grid") == "narrow"))
+        # (hand-sized `narrow` grids cut the measure wherever the user puts the grid: the size of the tail is then arbitrary;
+        #  what identifies the finding is that the gap IS minus the removed tail)
     return False
 
 
@@ -399,6 +406,49 @@ def _conversions_oracle(res, rng):
                or abs(a_seq - a_dir) > tol * max(1.0, abs(a_dir)) or abs(a_back - a0) > tol * max(1.0, abs(a0)))
         if bad:
             res.violation("set_representation is path dependent or not reversible", rep)
+
+
+def _truncated_conversions_oracle(res, rng):
+    """representation changes of a TRUNCATED triplet (what MarkovChainProcess does before simulating) against the Levy-Khintchine
+    meaning of each representation, with the moments int_{-1}^{1} x nu_T and int_{|x|>1} x nu_T computed independently by mpmath
+    from the truncated measure's own density; truncations strictly inside (-1,1), around +-1 and wide"""
+    import copy
+    from rpylib.model.levymodel.levymodel import LevyRepresentation as LR
+    sets = [("hem", dict(L.FIXED["hem"][0])), ("merton", dict(L.FIXED["merton"][0])), ("vg", dict(L.FIXED["vg"][0])),
+            ("cgmy", dict(c=0.5, g=3.0, m=8.0, y=0.5)), ("cgmy", dict(c=1.0, g=4.0, m=6.0, y=0.0)), ("cgmy", dict(c=1.0, g=4.0, m=6.0, y=-0.5)),
+            ("cgmy", dict(c=1.0, g=4.0, m=6.0, y=1.5)), ("cgmy", L.cgmy_params(rng)), ("hem", L.hem_params(rng)), ("vg", L.vg_params(rng))]
+    truncs = [(-0.2, 0.2), (-0.4, 0.7), (-L.rnd(rng, 0.1, 0.9), L.rnd(rng, 0.1, 0.9)), (-0.6, 1.4), (-1.7, 0.8), (-2.5, 2.0)]
+    for kind, params in sets:
+        for (l, r) in truncs:
+            model, _ = L.build(kind, params)
+            m = copy.deepcopy(model)
+            m.truncate_levy_measure((l, r))
+            t = m.levy_triplet
+            tnu, fv = t.nu, bool(t.nu.jump_of_finite_variation())
+            a0, rep0 = float(t.a), t.representation
+            tails = L.quad_xn_nu(tnu, -INF, -1.0, 1, extra=(l, r)) + L.quad_xn_nu(tnu, 1.0, INF, 1, extra=(l, r))
+            i11 = L.quad_xn_nu(tnu, -1.0, 1.0, 1, extra=(l, r)) if fv else None
+            canon = {LR.ONEONE: a0, LR.ZERO: a0 + (i11 or 0.0), LR.CENTER: a0 - tails, LR.TILDE: a0 + (i11 if fv else 0.0)}[rep0]
+            want = {LR.ONEONE: canon, LR.CENTER: canon + tails, LR.TILDE: canon - (i11 if fv else 0.0)}
+            if fv:
+                want[LR.ZERO] = canon - i11
+            seq = rng.sample(list(want), len(want))
+            for r_ in seq:
+                res.count(("conv-trunc", kind, tuple(sorted(params.items())), l, r, rep0.name, r_.name), kind="oracle conversions of a truncated triplet")
+                res.bump("truncation_inside_(-1,1)", -1 < l and r < 1)
+                rep = dict(kind="conversion-truncated", model=kind, params=params, truncations=[l, r], declared=rep0.name, a=a0, to=r_.name,
+                           expected=want[r_], I11_truncated=i11, tails_truncated=tails)
+                try:
+                    t.set_representation(r_)
+                except Exception as e:  # noqa
+                    rep["raised"] = f"{type(e).__name__}: {e}"
+                    res.violation(f"{kind}: set_representation of a truncated triplet raises", rep)
+                    break
+                if not _close(float(t.a), want[r_], rel=1e-8, ab=1e-10):
+                    rep["got"] = float(t.a)
+                    res.violation(f"{kind}: drift of the truncated triplet in the {r_.name} representation disagrees with the "
+                                  f"Levy-Khintchine moments of the truncated density", rep)
+                    break
 
 
 def _strip_oracle(res, rng):
